@@ -312,7 +312,56 @@ class GetTrainerConfig(_Builder):
     numeric = ("learning_rate", "early_stopping_min_delta", "early_stopping_patience")
     fixed = {"optimizer": "AdamW", "trainer_num_devices": 3}
     skip_defaults = ("lr_scheduler", "val_data_loader.shuffle")
-    not_decided = ("lr_scheduler argument (string / dict forms) of get_trainer_config",)
+    cases = _Builder.cases + ("lr:str:step_lr", "lr:str:reduce_lr_on_plateau", "lr:dict:step_lr", "lr:dict:reduce_lr_on_plateau",
+                              "lr:dict:None,step_lr", "lr:dict:None,reduce_lr_on_plateau", "lr:dict:step_lr,None", "lr:dict:reduce_lr_on_plateau,None")
+    STEP = {"step_size": 7, "gamma": "gamma-value"}
+    PLATEAU = {"threshold": "threshold-value", "threshold_mode": "mode-value", "cooldown": "cooldown-value", "patience": "patience-value",
+               "factor": "factor-value", "min_lr": 0.5}
+
+    def inputs(self, c, case):
+        if not case.startswith("lr:"):
+            return _Builder.inputs(self, c, case)
+        _, form, what = case.split(":")
+        if form == "str":
+            return dict(lr_scheduler=what)
+        other = {"step_lr": "reduce_lr_on_plateau", "reduce_lr_on_plateau": "step_lr"}
+        vals = {"step_lr": {k: (Atom(v) if isinstance(v, str) else v) for k, v in self.STEP.items()},
+                "reduce_lr_on_plateau": {k: (Atom(v) if isinstance(v, str) else v) for k, v in self.PLATEAU.items()}}
+        d = {}
+        keys = what.split(",")
+        real = [k for k in keys if k != "None"][0]
+        for k in keys:
+            if k == "None":
+                d[other[real]] = None
+            else:
+                d[k] = vals[k]
+        return dict(lr_scheduler=d)
+
+    def ensures(self, c, result, **args):
+        if "lr_scheduler" not in args:
+            return _Builder.ensures(self, c, result, **args)
+        lr = args["lr_scheduler"]
+        sched = _get(result, "lr_scheduler")
+        out = []
+        if isinstance(lr, str):
+            ref = c.interp.call(c.interp.resolve_dotted("sleap_nn.config.trainer_config." + ("StepLRConfig" if lr == "step_lr" else "ReduceLROnPlateauConfig")), [], {})
+            out.append(("PL/named-scheduler-with-schema-defaults", _obj_equal(c.interp, _get(sched, lr), ref)))
+            other = "reduce_lr_on_plateau" if lr == "step_lr" else "step_lr"
+            out.append(("PL/the-other-scheduler-stays-unset", _get(sched, other) is None))
+            return out
+        for name, sub in lr.items():
+            if sub is None:
+                out.append(("PL/scheduler-%s-supplied-as-None-stays-None" % name, _get(sched, name) is None))
+                continue
+            got = _get(sched, name)
+            if not isinstance(got, Obj):
+                out.append(("PL/scheduler-%s-settings-are-placed-in-the-config" % name, False))
+                continue
+            for k, v in sub.items():
+                out.append(("PL/scheduler-%s.%s-is-the-supplied-value" % (name, k), _same_value(_get(got, k), v)))
+        return out
+
+    not_decided = ()
 
     def allowed_exception(self, c, exc, **a):
         if exc.cls_name == "ValueError" and "learning_rate" in a:
